@@ -2,6 +2,7 @@ package bidderregistrycontract
 
 import (
 	"context"
+	"fmt"
 	"log/slog"
 	"math/big"
 	"strings"
@@ -79,7 +80,7 @@ func (r *bidderRegistryContract) PrepayAllowance(ctx context.Context, amount *bi
 			"txnHash", txnHash,
 			"receipt", receipt,
 		)
-		return err
+		return fmt.Errorf("transaction %s failed with status %d", txnHash.Hex(), receipt.Status)
 	}
 
 	r.logger.Info("prepay successful for bidder registry", "txnHash", txnHash)
